@@ -256,7 +256,8 @@ impl<'p> Gen<'p> {
                 ops.push(BodyOp::KeyProbe);
             } else if self.rng.chance(self.p.nonacq_pct, 100) && !w.targets.is_empty() {
                 let tt = self.rng.below(w.targets.len());
-                let op = *self.rng.pick(&[NonAcqOp::Debug, NonAcqOp::Accessors, NonAcqOp::IsPoisoned, NonAcqOp::Construct]);
+                let lim = self.rng.below(120) as u16;
+                let op = *self.rng.pick(&[NonAcqOp::Debug, NonAcqOp::DebugLimited(lim), NonAcqOp::Accessors, NonAcqOp::IsPoisoned, NonAcqOp::Construct]);
                 ops.push(BodyOp::NonAcq(op, tt));
             } else if nflat > 0 {
                 let i = self.rng.below(nflat);
@@ -303,7 +304,8 @@ impl<'p> Gen<'p> {
                 steps.push(Step::Acquire(self.acq(w, t)));
                 if self.rng.chance(self.p.nonacq_pct, 100) {
                     let tt = self.rng.below(w.targets.len());
-                    let op = *self.rng.pick(&[NonAcqOp::Debug, NonAcqOp::Accessors, NonAcqOp::IsPoisoned, NonAcqOp::ClearPoison, NonAcqOp::Construct]);
+                    let lim = self.rng.below(120) as u16;
+                let op = *self.rng.pick(&[NonAcqOp::Debug, NonAcqOp::DebugLimited(lim), NonAcqOp::Accessors, NonAcqOp::IsPoisoned, NonAcqOp::ClearPoison, NonAcqOp::Construct]);
                     steps.push(Step::NonAcq(op, tt));
                 }
             }
@@ -354,6 +356,12 @@ pub fn generate(profile: &str, seed: u64) -> Scenario {
         "C11" => gen_panics(profile, seed, false),
         "C12" => gen_c12(seed),
         "C16" => gen_c16(seed),
+        "C03" | "C05" => {
+            // release paths include the unwind of a panicking section
+            let mut p = Params::base();
+            p.panic_pct = 8;
+            gen_general(profile, seed, &p)
+        }
         _ => gen_general(profile, seed, &Params::base()),
     }
 }
@@ -702,7 +710,8 @@ pub fn gen_quiescent(seed: u64, nonacq: bool) -> Scenario {
     for _ in 0..nops {
         let t = g.rng.below(nt);
         if nonacq {
-            let op = *g.rng.pick(&[NonAcqOp::Debug, NonAcqOp::Debug, NonAcqOp::IsPoisoned, NonAcqOp::ClearPoison, NonAcqOp::Accessors, NonAcqOp::Construct]);
+            let (l1, l2) = (g.rng.below(150) as u16, g.rng.below(40) as u16);
+            let op = *g.rng.pick(&[NonAcqOp::Debug, NonAcqOp::DebugLimited(l1), NonAcqOp::DebugLimited(l2), NonAcqOp::IsPoisoned, NonAcqOp::ClearPoison, NonAcqOp::Accessors, NonAcqOp::Construct]);
             let any_t = g.rng.below(w.targets.len());
             if g.rng.chance(1, 2) {
                 tester.push(Step::NonAcq(op, any_t));
